@@ -33,6 +33,11 @@ def rich_state(P, A):
     level = OPS[P['op']][0]
     N = P['N']
     ids = [A['s%d' % i] for i in range(N)]
+    if P.get('dup_state'):
+        # a container that holds the same ID twice (reachable: roStoryAppend / replacements / item inserts do not
+        # de-duplicate).  Only used with oracles that do not need to know which of the two a reference means
+        i_, j_ = P['dup_state']
+        ids[j_] = ids[i_]
     c0 = A.get('c0', 'para')
     c1 = A.get('c1', 'meta')
     timed = P.get('timing', True)
@@ -445,6 +450,9 @@ def slot_space(op, mode):
             nks += [['dup'], ['dup', 'fresh'], ['fresh', 'dup'], ['dup', 'dup2'], ['dup', 'fresh', 'dup2']]
         if level == 'item':
             nks += [['other'], ['fresh', 'other']]
+            if mode in ('atomic', 'exc', 'envelope'):
+                # an inserted / replacing item whose ID the story already holds
+                nks += [['dup'], ['fresh', 'dup']]
         if level == 'story' and k == 'Replace' and mode != 'report':
             # a replacement story that carries the ID of another story of the running order
             nks += [['dup'], ['fresh', 'dup'], ['fresh', 'fresh', 'dup']]
